@@ -32,11 +32,13 @@ static inline void vstr_resize(vstr* s, size_t n) {
   s->size = n;
 }
 /* buffer = readx(fd, size): exactly `size` arbitrary bytes, or io_error (src/Filesystem.cc readx) */
+size_t g_refills;
 static inline void readx_into(vstr* s, size_t size) {
   __CPROVER_precondition(size <= VSTR_CAP, "string model: capacity");
   _Bool fail;            /* nondet */
   if (fail) { verif_exc = EXC_io_error; return; }
-  __CPROVER_havoc_object(s->data);   /* arbitrary content */
+  g_refills++;           /* ghost: number of successful refills */
+  /* content: not modelled (memcpy_model below abstracts byte values, nothing ever reads them) */
   s->size = size;
 }
 
@@ -44,38 +46,41 @@ static inline void readx_into(vstr* s, size_t size) {
 void* g_data0; size_t g_bytes0;    /* entry values of data / bytes (the loop overwrites the parameters) */
 size_t g_filled;                   /* total number of bytes stored so far */
 size_t g_k, g_k_hits;              /* arbitrary offset < bytes, number of stores that covered it */
-/* memcpy, content abstracted: the source must be readable for n bytes; of the destination range only the first and the
- * last byte are stored (arbitrary values).  Both stores go through the pointer checks and through dfcc's assigns-clause
- * check, and a contiguous range whose two end bytes lie inside [data, data+bytes) lies inside it entirely -- so the frame
- * obligation "nothing outside the requested range is written" is checked for the whole range.  No clause of this
- * property speaks about byte values.  (A symbolic-length __CPROVER_havoc_slice / real memcpy into a symbolic-size object
- * needs > 12 GB in the propositional back ends: measured.) */
+size_t g_size0;                    /* buffer.size() on entry */
+/* conservation (every byte taken from the source is handed out at most once, none is dropped on the way): what was in
+ * the buffer on entry plus what the refills delivered equals what was stored plus what is left (modulo 2^64) */
+#define CONSERVED (g_filled + buffer.size == g_size0 + (size_t)4096 * g_refills)
+/* memcpy, content abstracted: the source must be readable for n bytes; into the destination one arbitrary byte is stored
+ * at an arbitrary offset j < n.  That store goes through the pointer checks and through dfcc's assigns-clause check, and
+ * j is universally quantified (nondet), so the frame obligation "nothing outside [data, data+bytes) is written" is checked
+ * for every byte of every memcpy destination range.  No clause of this property speaks about byte values.
+ * (A symbolic-length __CPROVER_havoc_slice / real memcpy into a symbolic-size object needs > 12 GB in the propositional
+ * back ends: measured.) */
 static inline void memcpy_model(void* d, const void* s, size_t n) {
   __CPROVER_precondition(__CPROVER_r_ok(s, n), "memcpy: source readable");
-  if (n > 0) {
-    char first, last;    /* nondet */
-    ((char*)d)[0] = first;
-    ((char*)d)[n - 1] = last;
-  }
+  size_t j; char v;      /* nondet */
+  if (j < n) ((char*)d)[j] = v;
 }
 #define G_MEMCPY(d, s, n) (g_k_hits += ((g_k >= g_filled && g_k - g_filled < (n)) ? 1 : 0), g_filled += (n), memcpy_model(d, s, n))
 
 /* loop contract of the refill loop (injected by the extractor) */
 #define RD_LOOP \
-  __CPROVER_assigns(data, bytes, buffer.size, __CPROVER_object_whole(buffer_store), g_filled, g_k_hits, verif_exc, \
+  __CPROVER_assigns(data, bytes, buffer.size, g_filled, g_k_hits, g_refills, verif_exc, \
                     __CPROVER_object_upto(g_data0, g_bytes0)) \
   __CPROVER_loop_invariant(verif_exc == 0 && BUFFER_OK && bytes <= g_bytes0 && g_filled == g_bytes0 - bytes) \
   __CPROVER_loop_invariant(data == (void*)((uint8_t*)g_data0 + g_filled)) \
   __CPROVER_loop_invariant(g_k_hits == ((g_k < g_filled) ? 1 : 0)) \
+  __CPROVER_loop_invariant(CONSERVED) \
   __CPROVER_decreases(bytes, VSTR_CAP - buffer.size)
 
 void random_data(void* data, size_t bytes)
 __CPROVER_requires(__CPROVER_is_fresh(data, bytes))
 __CPROVER_requires(verif_exc == 0 && BUFFER_OK && (bytes == 0 || g_k < bytes))
 __CPROVER_ensures(verif_exc == 0 ==> (g_filled == bytes && (bytes != 0 ==> g_k_hits == 1)))
+__CPROVER_ensures(verif_exc == 0 ==> CONSERVED)
 __CPROVER_ensures(verif_exc == 0 || verif_exc == EXC_io_error)
 __CPROVER_ensures(BUFFER_OK)
-__CPROVER_assigns(__CPROVER_object_upto(data, bytes), buffer.size, __CPROVER_object_whole(buffer_store), g_data0, g_bytes0, g_filled, g_k_hits, verif_exc);
+__CPROVER_assigns(__CPROVER_object_upto(data, bytes), buffer.size, g_data0, g_bytes0, g_size0, g_filled, g_k_hits, g_refills, verif_exc);
 
 /* ---- std::string random_data(size_t bytes): model of the returned string = pointer + size */
 typedef struct { char* data; size_t size; } pstr;
@@ -91,7 +96,7 @@ __CPROVER_requires(__CPROVER_is_fresh(ret, sizeof(pstr)))
 __CPROVER_requires(verif_exc == 0 && BUFFER_OK && (bytes == 0 || g_k < bytes))
 __CPROVER_ensures(verif_exc == 0 ==> (ret->size == bytes && g_filled == bytes && (bytes != 0 ==> g_k_hits == 1)))
 __CPROVER_ensures(BUFFER_OK)
-__CPROVER_assigns(__CPROVER_object_whole(ret), buffer.size, __CPROVER_object_whole(buffer_store), g_data0, g_bytes0, g_filled, g_k_hits, verif_exc);
+__CPROVER_assigns(__CPROVER_object_whole(ret), buffer.size, g_data0, g_bytes0, g_size0, g_filled, g_k_hits, g_refills, verif_exc);
 
 /* ---- random_int: hi - lo < 2^63 (the property's domain), result in [lo, hi] */
 int64_t random_int(int64_t low, int64_t high)
@@ -99,6 +104,6 @@ __CPROVER_requires(low <= high && (uint64_t)high - (uint64_t)low <= (uint64_t)IN
 __CPROVER_requires(verif_exc == 0 && BUFFER_OK && g_k == 0)
 __CPROVER_ensures(verif_exc == 0 ==> (low <= __CPROVER_return_value && __CPROVER_return_value <= high))
 __CPROVER_ensures(BUFFER_OK)
-__CPROVER_assigns(buffer.size, __CPROVER_object_whole(buffer_store), g_data0, g_bytes0, g_filled, g_k_hits, verif_exc);
+__CPROVER_assigns(buffer.size, g_data0, g_bytes0, g_size0, g_filled, g_k_hits, g_refills, verif_exc);
 
 #endif
